@@ -232,21 +232,44 @@ def rule_exit_monotone(ctx, repo):
 
 def rule_main(ctx, repo):
     f = F.function(repo, MAIN, "run")
-    t_none = [tn for tn in f.g.nodes() if f.g.data(tn)["kind"] == "test" and Q.match("system is not None", f.g.data(tn)["ast"].test)]
-    ok = bool(t_none)
-    if ok:
-        a = [n for n in f.g.nodes() if f.g.data(n)["kind"] == "stmt" and Q.match("ex_code += system.exit_code", f.g.data(n)["ast"])
-             and f.g.guarded_by(n, t_none[0], "true")]
-        b = [n for n in f.g.nodes() if f.g.data(n)["kind"] == "stmt" and Q.match("ex_code += 1", f.g.data(n)["ast"])
-             and f.g.guarded_by(n, t_none[0], "false")]
-        ok = bool(a) and bool(b)
-    ctx.check(ok, "C17.aggregate", "main.run/single", "exit code += system.exit_code, or +1 when no system was produced",
-              "single-case exit code no longer reflects a failed load / the system's exit_code", f.W())
-    ok = False
-    for lp, e in Q.loops(f.fn, "system", "$s"):
-        if Q.has("ex_code += $s.exit_code", lp, e):
-            ok = True
-    ctx.check(ok, "C17.aggregate", "main.run/multi", "multi-case exit codes summed", "multi-case exit codes no longer summed", f.W())
+    # aggregation, decided by evaluation: the top-level statements of run() that touch `ex_code` are evaluated (engine/tinyexec.py) for
+    # every outcome class of the case runners; the process exit code must count every failure
+    from engine.tinyexec import TinyExec, Self
+    from engine.ordertype import Unsupported
+
+    class _Sys:
+        def __init__(self, code):
+            self.exit_code = code
+    stmts = [st for st in f.fn.body if any(isinstance(x, ast.Name) and x.id == "ex_code" for x in ast.walk(st))
+             and not isinstance(st, ast.Return) and not (isinstance(st, ast.If) and any(isinstance(x, ast.Return) for x in ast.walk(st)))]
+    scen = [("one case, no system produced", dict(filename="a.xlsx", cases=["a"], system=None), 1),
+            ("one case, system with 3 recorded failures", dict(filename="a.xlsx", cases=["a"], system=_Sys(3)), 3),
+            ("one case, clean", dict(filename="a.xlsx", cases=["a"], system=_Sys(0)), 0),
+            ("two cases (pool), failures 1 and 2", dict(filename="*.xlsx", cases=["a", "b"], system=[_Sys(1), _Sys(2)]), 3),
+            ("two cases (pool), clean", dict(filename="*.xlsx", cases=["a", "b"], system=[_Sys(0), _Sys(0)]), 0),
+            ("file given but not found", dict(filename="zz.xlsx", cases=[], system=None), 1),
+            ("no file given", dict(filename="", cases=[], system=None), 0)]
+    bad, undec = {"single": [], "multi": [], "not-found": []}, None
+    for what, env0, want in scen:
+        env = dict(env0, s0="", shell=False, cli=True)
+        try:
+            TinyExec(repo, "System", SYSTEM).run(stmts, env, Self())
+        except Unsupported as ex:
+            undec = str(ex)
+            break
+        got = env.get("ex_code")
+        if got != want:
+            kind = "single" if "one case" in what else ("multi" if "two cases" in what else "not-found")
+            bad[kind].append("%s: exit code %r, expected %r" % (what, got, want))
+    if undec:
+        for k_ in ("single", "multi", "not-found"):
+            ctx.undecided("C17.aggregate", "main.run/%s" % k_, "evaluator: %s" % undec, f.W())
+    else:
+        ctx.check(not bad["single"], "C17.aggregate", "main.run/single", "exit code += system.exit_code, or +1 when no system was produced",
+                  "; ".join(bad["single"]), f.W())
+        ctx.check(not bad["multi"], "C17.aggregate", "main.run/multi", "multi-case exit codes summed", "; ".join(bad["multi"]), f.W())
+        ctx.check(not bad["not-found"], "C17.aggregate", "main.run/not-found", "file specified but not found => exit code 1",
+                  "; ".join(bad["not-found"]), f.W())
     t = [tn for tn in f.g.nodes() if f.g.data(tn)["kind"] == "test" and Q.match("cli is True", f.g.data(tn)["ast"].test)]
     ok = bool(t) and any(src(f.g.data(r)["ast"].value) == "ex_code" and f.g.guarded_by(r, t[0], "true") for r in f.returns())
     ctx.check(ok, "C17.aggregate", "main.run/cli", "cli returns the exit code", "cli no longer returns the aggregated exit code", f.W())
@@ -263,9 +286,6 @@ def rule_main(ctx, repo):
               "python -m andes exits with main()'s return value",
               "`andes/__main__.py` calls main() and drops its return value: `python -m andes ...` exits 0 whatever failed (missing file, "
               "diverged power flow)", "andes/__main__.py:%d" % (calls[0].lineno if calls else 1))
-    ok = any(Q.match("ex_code = 1", f.g.data(n)["ast"]) for n in f.g.nodes() if f.g.data(n)["kind"] == "stmt")
-    ctx.check(ok, "C17.aggregate", "main.run/not-found", "file specified but not found => exit code 1",
-              "missing input file no longer yields a non-zero exit code", f.W())
     # load: parse failure => None
     f = F.function(repo, MAIN, "load")
     t = [tn for tn in f.g.nodes() if f.g.data(tn)["kind"] == "test" and Q.match("not andes.io.parse(system)", f.g.data(tn)["ast"].test)]
